@@ -19,7 +19,7 @@
    changes, all other elements and their order stay"). *)
 From Coq Require Import List ZArith Bool Arith Lia.
 From SC Require Import Base.Res Base.PyList Inst.Heap Inst.ClassTable Inst.Model Inst.Canon Inst.Abs
-  Inst.SpecHelpers Inst.ElemProofs Inst.RefineProofs Inst.CopyProofs Inst.ElemRefineDep Inst.ElemRefine Inst.ElemRefine2 Inst.ElemRefine3 Inst.ElemRefine4 Inst.ElemRefine5 Inst.ElemRefine6 Inst.ElemRefine7 Inst.ElemRefine8 Inst.ElemRefine9 Inst.ElemRefine10 Inst.ElemRefine11 Inst.ElemRefine12 Inst.ElemRefineGuard.
+  Inst.SpecHelpers Inst.ElemProofs Inst.RefineProofs Inst.CopyProofs Inst.ElemRefineDep Inst.ElemRefine Inst.ElemRefine2 Inst.ElemRefine3 Inst.ElemRefine4 Inst.ElemRefine5 Inst.ElemRefine6 Inst.ElemRefine7 Inst.ElemRefine8 Inst.ElemRefine9 Inst.ElemRefine10 Inst.ElemRefine11 Inst.ElemRefine12 Inst.ElemRefine13 Inst.ElemRefineGuard.
 Import ListNotations.
 Open Scope nat_scope.
 
@@ -420,7 +420,7 @@ Qed.
    see above.  refines_spec: the model run and spec_helper agree on the result state (the
    receiver itself is returned) and on the error class, and an error leaves the heap alone.
    STILL MISSING for the full statement: keywords / spec elements (key promotion), nested
-   receivers, in-place calls on a shared container, attributes that other attributes are
+   receivers in copy-on-write calls, in-place calls on a shared container, attributes that other attributes are
    invalidated by.
    (The copy-on-write flag of with_/without_<item> is C06_elem_helpers_copy_refine_guarded_partial.) *)
 Theorem C06_elem_helpers_refine_guarded_partial : forall ct h0 s l a,
@@ -914,6 +914,95 @@ Example C06_preparer_examples :
   fst (run_helper ex_ct_prep 0 (HWithItem 1) (mkh [VStr 1] true true (VInt 9) false None None [] None) ex_state) = Err IndexErr.
 Proof. vm_compute. repeat split. Qed.
 
+(* NESTED RECEIVERS, in place (Inst/ElemRefine13.v).  nested_guard drops the flatness condition:
+   the OTHER attributes of the receiver may hold anything -- spec instances, containers of
+   containers, shared structure -- provided none of them reaches the cell of the edited container
+   (reaches: computable reachability to the depth the abstraction looks; abs_unreach: what does
+   not reach a rewritten cell keeps its abstraction).  All twelve in-place statements (with_ /
+   without_ / update_ / transform_<item> on List, Dict, Set) hold under it: every other
+   attribute, however deep, is abstractly unchanged. *)
+Theorem C06_elem_helpers_nested_refine_guarded_partial : forall ct h0 s l a,
+  (nested_guard ct s l a KList = true ->
+     (forall idx v ins, plain_items ct s l a = true -> vscalar v = true ->
+        (idx = VMissing \/ exists i, idx = VInt i) ->
+        refines_spec ct h0 s l (HWithItem a) (mkh [v] true true idx ins None None [] None)
+                     (SWithItem a) (mkah [abs0 v] true true (abs0 idx) ins None None [] None)) /\
+     (forall voi bi, nonref voi = true ->
+        refines_spec ct h0 s l (HWithoutItem a) (mkh [voi] true true VMissing false bi None [] None)
+                     (SWithoutItem a) (mkah [abs0 voi] true true AMissing false bi None [] None)) /\
+     (forall voi fo bi, proper_elems s l a = true -> fail_at s = None ->
+        nonref voi = true -> is_missing voi = false -> fo_ok fo -> by_value_ok ct s l a voi bi = true ->
+        refines_spec ct h0 s l (HTransformItem a) (mkh [voi] true true VMissing false bi None [] fo)
+                     (STransformItem a) (mkah [abs0 voi] true true AMissing false bi None [] fo)) /\
+     (forall voi v bi, proper_elems s l a = true -> plain_items ct s l a = true ->
+        nonref voi = true -> is_missing voi = false -> nonref v = true ->
+        vscalar v || by_value_ok ct s l a voi bi = true ->
+        refines_spec ct h0 s l (HUpdateItem a) (mkh [voi; v] true true VMissing false bi None [] None)
+                     (SUpdateItem a) (mkah [abs0 voi; abs0 v] true true AMissing false bi None [] None))) /\
+  (nested_guard ct s l a KDict = true ->
+     (forall key v, plain_items ct s l a = true -> nonref key = true -> vscalar v = true ->
+        refines_spec ct h0 s l (HWithItem a) (mkh [key; v] true true VMissing false None None [] None)
+                     (SWithItem a) (mkah [abs0 key; abs0 v] true true AMissing false None None [] None)) /\
+     (forall key, nonref key = true ->
+        refines_spec ct h0 s l (HWithoutItem a) (mkh [key] true true VMissing false None None [] None)
+                     (SWithoutItem a) (mkah [abs0 key] true true AMissing false None None [] None)) /\
+     (forall key fo bi, dict_vals_proper s l a = true -> fail_at s = None ->
+        nonref key = true -> is_missing key = false -> fo_ok fo ->
+        refines_spec ct h0 s l (HTransformItem a) (mkh [key] true true VMissing false bi None [] fo)
+                     (STransformItem a) (mkah [abs0 key] true true AMissing false bi None [] fo)) /\
+     (forall key v, dict_vals_proper s l a = true -> plain_items ct s l a = true ->
+        nonref key = true -> is_missing key = false -> nonref v = true ->
+        refines_spec ct h0 s l (HUpdateItem a) (mkh [key; v] true true VMissing false None None [] None)
+                     (SUpdateItem a) (mkah [abs0 key; abs0 v] true true AMissing false None None [] None))) /\
+  (nested_guard ct s l a KSet = true ->
+     (forall v, plain_items ct s l a = true -> vscalar v = true -> set_key_free ct (list_of s l a) v = true ->
+        refines_spec ct h0 s l (HWithItem a) (mkh [v] true true VMissing false None None [] None)
+                     (SWithItem a) (mkah [abs0 v] true true AMissing false None None [] None)) /\
+     (forall voi, nonref voi = true ->
+        refines_spec ct h0 s l (HWithoutItem a) (mkh [voi] true true VMissing false None None [] None)
+                     (SWithoutItem a) (mkah [abs0 voi] true true AMissing false None None [] None)) /\
+     (forall voi fo bi, fail_at s = None -> vscalar voi = true -> fo_ok fo ->
+        set_change_ok ct s l a voi (trp fo voi) = true ->
+        refines_spec ct h0 s l (HTransformItem a) (mkh [voi] true true VMissing false bi None [] fo)
+                     (STransformItem a) (mkah [abs0 voi] true true AMissing false bi None [] fo)) /\
+     (forall voi v, plain_items ct s l a = true -> vscalar voi = true -> nonref v = true ->
+        set_change_ok ct s l a voi (up_pr v voi) = true ->
+        refines_spec ct h0 s l (HUpdateItem a) (mkh [voi; v] true true VMissing false None None [] None)
+                     (SUpdateItem a) (mkah [abs0 voi; abs0 v] true true AMissing false None None [] None))).
+Proof.
+  intros ct h0 s l a. split; [|split]; intro G; (split; [|split; [|split]]).
+  - intros idx v ins P Hv Hi. now apply with_item_list_nested_guarded.
+  - intros voi bi Hv. now apply without_item_list_nested_guarded.
+  - intros voi fo bi Pe Hfa Hv Hm Hfo Hbv. now apply transform_item_list_nested_guarded.
+  - intros voi v bi Pe P Hv Hm Hnv Hbv. now apply update_item_list_nested_guarded.
+  - intros key v P Hk Hv. now apply with_item_dict_nested_guarded.
+  - intros key Hk. now apply without_item_dict_nested_guarded.
+  - intros key fo bi Vp Hfa Hk Hm Hfo. now apply transform_item_dict_nested_guarded.
+  - intros key v Vp P Hk Hm Hnv. now apply update_item_dict_nested_guarded.
+  - intros v P Hv Hkf. now apply with_item_set_nested_guarded.
+  - intros voi Hv. now apply without_item_set_nested_guarded.
+  - intros voi fo bi Hfa Hv Hfo Hok. now apply transform_item_set_nested_guarded.
+  - intros voi v P Hv Hnv Hok. now apply update_item_set_nested_guarded.
+Qed.
+
+(* non-vacuity: a receiver whose attribute `sub` holds another instance, itself holding a list
+   and a list of lists that share cells: the receiver is within nested_guard (not within
+   elem_guard); the inner instance is not (its second attribute reaches the cell of its list);
+   the edit changes the list only, the abstraction of `sub` is untouched *)
+Example C06_nested_guard_examples :
+  nested_guard ex_ct_nest ex_state_nest 0 1 KList = true /\ elem_guard ex_ct_nest ex_state_nest 0 1 KList = false /\
+  nested_guard ex_ct_nest ex_state_nest 2 1 KList = false /\ plain_items ex_ct_nest ex_state_nest 0 1 = true /\
+  absv (heap ex_state_nest) (VRef 0) =
+    AInst 0 [(1, AList [AInt 1; AInt 0]);
+             (5, AInst 0 [(1, AList [AInt 9]); (5, AList [AList [AInt 7]; AList [AInt 7]; AList [AInt 9]])])] /\
+  (match run_helper ex_ct_nest 0 (HWithItem 1) (mkh [VInt 5] true true (VInt 0) true None None [] None) ex_state_nest with
+   | (Ok (VRef r), s') => r = 0 /\
+       absv (heap s') (VRef 0) =
+       AInst 0 [(1, AList [AInt 5; AInt 1; AInt 0]);
+                (5, AInst 0 [(1, AList [AInt 9]); (5, AList [AList [AInt 7]; AList [AInt 7]; AList [AInt 9]])])]
+   | _ => False end).
+Proof. vm_compute. repeat split. Qed.
+
 (* WHY by_value_ok IS NEEDED — a finding.  xs : List[int] holding [1, 0, 1, 0];
    transform_<item>(True, lambda x: x): True has the element type, so the target is addressed
    BY VALUE; True == 1 finds position 0.  "Replace by transformed value" (spec_change_item)
@@ -979,5 +1068,7 @@ Print Assumptions C06_dict_set_change_examples.
 Print Assumptions C06_with_item_preparer_refine_guarded_partial.
 Print Assumptions C06_update_item_preparer_refine_guarded_partial.
 Print Assumptions C06_preparer_examples.
+Print Assumptions C06_elem_helpers_nested_refine_guarded_partial.
+Print Assumptions C06_nested_guard_examples.
 Print Assumptions C06_by_value_transforms_argument_refuted.
 Print Assumptions C06_examples.
